@@ -265,8 +265,8 @@ class C13(Prop):
                    "dyadic streams: float64 images with dyadic values (window sums are exact)",
                    "float32 images: thresholds representable in float32 (NumPy converts the Python float to the array dtype); "
                    "other thresholds are tolerated through the bound, not demanded",
-                   "integer images: np.pad rounds the pad values to the integer dtype, the mechanism model keeps exact pads, so "
-                   "the mechanism is compared at pixels whose windows hold no pad value; the specification at every pixel"]
+                   "integer images: np.pad rounds the pad values (half to even) to the integer dtype; the mechanism model does the "
+                   "same (pad statistic rint o mean / rint o median, theorems interior_any_pad_*)"]
 
     # ------------------------------------------------------------------ generation
     def gen_data(self, rng, shape):
@@ -675,8 +675,10 @@ class C13(Prop):
 
         n = len(vals)
         sparse = n > SPARSE_ABOVE
+        is_int = np.dtype(dtname).kind in "iu"
+        # integer image: np.pad rounds the pad values (half to even) to the dtype; the mechanism model does the same
         req = dict(kind=kind, shape=shape, data=[core.rat(v) for v in vals], block=block,
-                   threshold=None if math.isinf(t) else core.rat(t))
+                   threshold=None if math.isinf(t) else core.rat(t), pad="rint" if is_int else "exact")
         if sparse:
             changed = []
             if "raises" not in impl and impl["shape"] == shape:
@@ -693,7 +695,6 @@ class C13(Prop):
         abs_tol = 1e-12 * scale
         halves = [b // 2 for b in block]
         idx = np.indices(shape).reshape(len(shape), -1).T if n else []
-        is_int = np.dtype(dtname).kind in "iu"
         # the format pewlib computes in: float32 stays float32, integers are averaged in float64
         p_bits, emin = FLOAT_DTYPES.get(dtname, FLOAT_DTYPES["float64"])
         t_used = float(np.float32(t)) if dtname == "float32" else t  # a Python float times a float32 array is float32
@@ -798,14 +799,10 @@ class C13(Prop):
             else:
                 out = impl["out"]
                 n_int = n_repl_int = n_repl_border = n_det = 0
-                # integer input: np.pad rounds the pad values to integers, the mechanism model keeps them exact -> the
-                # mechanism is compared where no pad value is involved (the specification everywhere, as always)
                 cmp_model = have_model and impl["shape"] == rep["shape"]
                 if cmp_model:  # the mechanism at every pixel, also of a large image
                     for k in range(n):
                         pk = tuple(int(i) for i in idx[k])
-                        if is_int and not real_window(pk, 2 if kind == "median" else 1):
-                            continue
                         ok, nr = ok_cell(out[k], rep["model"][k], pk)
                         nears += nr
                         if not ok:
@@ -822,7 +819,7 @@ class C13(Prop):
                         n_int += 1
                         ok, nr = ok_cell(out[k], s, p)
                         n_det += not nr
-                        if not cmp_model or is_int:  # (only a large image can be without the mechanism)
+                        if not cmp_model:  # (only a large image can be without the mechanism)
                             nears += nr
                         if s["outlier"]:
                             n_repl_int += 1
